@@ -421,8 +421,8 @@ def run_item(item) -> Acc:
     elif k == "filenames":
         body = {"py": "def f():\n    return 42\n", "ts": "function f() {\n  return 42;\n}\n"}
         names = {
-            "py": [("test_calc.py", True), ("calc_test.py", True), ("calc.py", False), ("contest.py", False), ("constants.py", True), ("attest_data.py", False)],
-            "ts": [("calc.test.ts", True), ("calc.spec.ts", True), ("calc.ts", False), ("contest.ts", False), ("latest_version.ts", False)],
+            "py": [("test_calc.py", True), ("calc_test.py", True), ("calc.py", False), ("contest.py", False), ("constants.py", True), ("attest_data.py", False), ("tests/helpers.py", False), ("latest/calc.py", False), ("src/contest/calc.py", False)],
+            "ts": [("calc.test.ts", True), ("calc.spec.ts", True), ("calc.ts", False), ("contest.ts", False), ("latest_version.ts", False), ("latest/calc.ts", False), ("src/contest/calc.ts", False), ("src/unittest/calc.ts", False)],
         }
         for lang, lst in names.items():
             for fname, exempt in lst:
